@@ -552,6 +552,12 @@ pub fn gen_script(rng: &mut Rng, i: u64) -> Vec<SOp> {
             6 if rng.chance(1, 4) => SOp::Call(Call::Unbind, mods.clone()),
             _ => {
                 let mut call = gen::gen_call(rng, tok, false, false);
+                if let Call::Add { attrs, .. } = &mut call {
+                    // an attribute with an empty value set: refused locally, by both front-ends alike
+                    if rng.chance(1, 4) {
+                        attrs.push((b"emptyValued".to_vec(), vec![]));
+                    }
+                }
                 let mut m = mods.clone();
                 // put the behaviour in the DN-like field
                 match &mut call {
@@ -765,5 +771,109 @@ pub fn replay(ctx: &Ctx, v: &Value) -> Report {
         let mut rng = case_rng(ctx.seed, "differential", i);
         run_case(i, &mut rng, &mut rep, true);
     }
+    rep
+}
+
+
+// ---------------- the constructors ----------------
+
+/// `LdapConn::with_settings` is `LdapConnAsync::with_settings` plus a runtime: for the same URL and
+/// the same kind of pre-opened stream both either connect or fail with the same class of error.
+pub fn constructors(ctx: &Ctx) -> Report {
+    let mut rep = Report::new();
+    let listener = match std::net::TcpListener::bind("127.0.0.1:0") {
+        Ok(l) => l,
+        Err(e) => {
+            rep.inconclusive(format!("constructors: cannot listen: {}", e));
+            return rep;
+        }
+    };
+    let port = listener.local_addr().map(|a| a.port()).unwrap_or(0);
+    // accept and hold: nobody speaks on these connections
+    std::thread::spawn(move || {
+        let mut held = vec![];
+        for s in listener.incoming() {
+            match s {
+                Ok(s) => held.push(s),
+                Err(_) => break,
+            }
+            if held.len() > 4096 {
+                held.clear();
+            }
+        }
+    });
+    let urls: Vec<String> = vec![
+        "ldap:///".into(),
+        "ldap://".into(),
+        "ldap:///dc=example,dc=org??sub".into(),
+        format!("ldap://127.0.0.1:{}", port),
+        "ldap://localhost".into(),
+        "ldap://host.invalid:3890".into(),
+        "ldapi:///".into(),
+        "ldapi://%2Ftmp%2Fno-such-socket".into(),
+        "ldapx:///".into(),
+        "LDAP:///".into(),
+    ];
+    let rt = tokio::runtime::Builder::new_multi_thread().worker_threads(2).enable_all().build().expect("rt");
+    let reps = if ctx.tiny { 1 } else { 2 };
+    for _ in 0..reps {
+        for url in &urls {
+            for kind in ["tcp", "unix", "none"] {
+                if kind == "none" && !(url.contains(&port.to_string()) || url.starts_with("ldapi://%2F") || url.starts_with("ldapx")) {
+                    // without a pre-opened stream only URLs that cannot reach a real service are tried
+                    continue;
+                }
+                let mk = |k: &str| -> Result<LdapConnSettings, String> {
+                    let s = LdapConnSettings::new().set_conn_timeout(Duration::from_secs(3));
+                    Ok(match k {
+                        "tcp" => s.set_std_stream(StdStream::Tcp(std::net::TcpStream::connect(("127.0.0.1", port)).map_err(|e| e.to_string())?)),
+                        "unix" => {
+                            let (a, b) = UnixStream::pair().map_err(|e| e.to_string())?;
+                            std::mem::forget(b);
+                            s.set_std_stream(StdStream::Unix(a))
+                        }
+                        _ => s,
+                    })
+                };
+                let (sa, ss) = match (mk(kind), mk(kind)) {
+                    (Ok(a), Ok(b)) => (a, b),
+                    _ => {
+                        rep.inconclusive(format!("constructors: cannot pre-open a {} stream", kind));
+                        continue;
+                    }
+                };
+                let u1 = url.clone();
+                let a = rt.block_on(async move {
+                    match tokio::time::timeout(Duration::from_secs(10), crate::world::Caught::new(LdapConnAsync::with_settings(sa, &u1))).await {
+                        Ok(Ok(Ok(_))) => "Ok".to_string(),
+                        Ok(Ok(Err(e))) => format!("Err({})", err_class(&e)),
+                        Ok(Err(p)) => format!("Panic({})", p.site()),
+                        Err(_) => "Hung".into(),
+                    }
+                });
+                let u2 = url.clone();
+                let (tx, rx) = std::sync::mpsc::channel();
+                std::thread::spawn(move || {
+                    let r = crate::report::guarded(|| LdapConn::with_settings(ss, &u2).map(|_| ()));
+                    let _ = tx.send(match r {
+                        Ok(Ok(())) => "Ok".to_string(),
+                        Ok(Err(e)) => format!("Err({})", err_class(&e)),
+                        Err(p) => format!("Panic({})", p.site()),
+                    });
+                });
+                let s = rx.recv_timeout(Duration::from_secs(10)).unwrap_or_else(|_| "Hung".into());
+                if a == "Hung" || s == "Hung" {
+                    rep.inconclusive(format!("constructors: {} with a {} stream: async {} sync {}", url, kind, a, s));
+                } else if a != s {
+                    rep.violation(format!("C14:constructors:differ:{}", if a == "Ok" { "sync-fails-where-async-connects" } else if s == "Ok" { "sync-connects-where-async-fails" } else { "error-class" }), format!("with_settings({:?}) with a pre-opened {} stream: LdapConnAsync -> {}, LdapConn -> {}", url, kind, a, s), json!({"lane":"constructors","url":url,"stream":kind}));
+                } else {
+                    rep.count(&format!("constructors_agree_{}", a.split('(').next().unwrap_or("?")), 1);
+                }
+                rep.case(Some(fnv(format!("{}{}", url, kind).as_bytes())));
+            }
+        }
+    }
+    rt.shutdown_background();
+    rep.sample(json!({"lane":"constructors","urls":urls,"streams":["pre-opened TCP","pre-opened Unix","none"]}));
     rep
 }
